@@ -1,6 +1,7 @@
 package checks
 
 import (
+	"bytes"
 	"context"
 	"fmt"
 	"io"
@@ -67,6 +68,35 @@ var c11MoreErrs = []error{
 	lib.ErrInjected, os.ErrDeadlineExceeded, context.DeadlineExceeded, context.Canceled, io.ErrNoProgress, io.ErrShortBuffer,
 	syscall.ECONNRESET, syscall.EINTR, syscall.EAGAIN, net.ErrClosed, os.ErrNotExist, c11Timeout{},
 	&os.PathError{Op: "read", Path: "/dev/fit", Err: syscall.EIO}, fmt.Errorf("wrapped: %w", os.ErrDeadlineExceeded),
+}
+
+// Errors that the library itself returned earlier (for an empty source, for a source cut inside
+// the header, for a failing source), bare and wrapped once more: what a reader hands on that is
+// fed by another stage using this package (a pipe closed with the producer's error).
+func init() {
+	var own []error
+	_, e := fit.Decode(bytes.NewReader(nil))
+	own = append(own, e)
+	_, e = fit.DecodeHeader(bytes.NewReader(nil))
+	own = append(own, e)
+	_, _, e = fit.DecodeHeaderAndFileID(bytes.NewReader(nil))
+	own = append(own, e)
+	own = append(own, fit.CheckIntegrity(bytes.NewReader(nil), false))
+	_, e = fit.DecodeChained(bytes.NewReader(nil))
+	own = append(own, e)
+	_, e = fit.Decode(bytes.NewReader([]byte{14, 0x20, 0x43}))
+	own = append(own, e)
+	_, e = fit.Decode(bytes.NewReader([]byte{14}))
+	own = append(own, e)
+	for i, e := range own {
+		if e == nil {
+			continue
+		}
+		c11MoreErrs = append(c11MoreErrs, e)
+		if i < 3 {
+			c11MoreErrs = append(c11MoreErrs, fmt.Errorf("upstream stage: %w", e))
+		}
+	}
 }
 
 type c11File struct {
